@@ -34,8 +34,10 @@ type gprod struct {
 	parts   map[int64]bool
 	wins    map[int64]*gwin
 	hist    []gbatch
+	txb     map[int64]int64 // bytes of the running transaction per partition
 }
 type gsess struct {
+	broker    int64
 	id, epoch int64
 	iso       int64
 	c         string
@@ -50,6 +52,22 @@ type gstate struct {
 	prods []*gprod
 	sess  []*gsess
 	nsess int64
+	nb    int64   // brokers
+	via   int64   // broker the client talks to
+	lead  []int64 // leader per partition
+}
+
+// turn to the leader of the partition (most of the time), so that the request reaches the log
+func (g *gstate) toLeader(part int64) bool {
+	if g.lead[part] == g.via {
+		return true
+	}
+	if g.r.Chance(80) {
+		g.via = g.lead[part]
+		hx.Emit("via %d", g.via)
+		return true
+	}
+	return false
 }
 
 func (g *gstate) win(p *gprod, part int64) *gwin {
@@ -74,6 +92,7 @@ func (g *gstate) endTx(p *gprod, commit bool) {
 	p.parts = map[int64]bool{}
 	p.inTx = false
 	p.lastC = commit
+	p.txb = nil
 }
 
 func (g *gstate) start(p *gprod) {
@@ -147,6 +166,87 @@ func (g *gstate) goodProd(p *gprod, part int64) {
 	w.seen, w.epoch, w.next = true, p.epoch, seq+n
 	g.hwm[part] += n
 	p.hist = append(p.hist, gbatch{c, p.epoch, seq, n, nb, part, 1})
+	if p.txb == nil {
+		p.txb = map[int64]int64{}
+	}
+	p.txb[part] += nb
+}
+
+// a fetch at the (believed) end of some partitions with MinBytes > 0: it waits until MaxWait, or until a
+// transaction that times out meanwhile puts enough marker / released bytes on one of its partitions
+func (g *gstate) waitingFetch(c string, iso int64) {
+	r := g.r
+	var qs []int64
+	for q := int64(0); q < g.np; q++ {
+		if r.Chance(65) {
+			qs = append(qs, q)
+		}
+	}
+	if len(qs) == 0 {
+		qs = append(qs, r.Range(0, g.np-1))
+	}
+	// a partition led elsewhere makes the fetch return at once: keep to the partitions of one broker
+	if g.lead[qs[0]] != g.via {
+		g.via = g.lead[qs[0]]
+		hx.Emit("via %d", g.via)
+	}
+	var led []int64
+	for _, q := range qs {
+		if g.lead[q] == g.via {
+			led = append(led, q)
+		}
+	}
+	qs = led
+	var ps []string
+	for _, q := range qs {
+		ps = append(ps, fmt.Sprintf("%d:%d:%d", q, g.hwm[q], hx.Pick(r, []int64{1 << 20, 1 << 20, 200, 100})))
+	}
+	minb := hx.Pick(r, []int64{1, 50, 72, 73, 100, 150, 250})
+	wait := hx.Pick(r, []int64{10, 20, 50, 100, 150, 200})
+	newSess := r.Chance(25)
+	if newSess {
+		hx.Emit("fetch %s %d 1048576 0 0 %s - %d %d", c, iso, strings.Join(ps, ","), minb, wait)
+	} else {
+		hx.Emit("fetch %s %d 1048576 0 -1 %s - %d %d", c, iso, strings.Join(ps, ","), minb, wait)
+	}
+	// what the generator believes happens while it waits
+	deadline := g.now + wait
+	need := minb
+	woken := false
+	for !woken {
+		var next *gprod
+		for _, p := range g.prods {
+			if p.txn && p.inTx && p.start+p.timeout <= deadline && (next == nil || p.start+p.timeout < next.start+next.timeout) {
+				next = p
+			}
+		}
+		if next == nil {
+			break
+		}
+		g.now = next.start + next.timeout
+		for _, q := range qs {
+			if next.parts[q] {
+				need -= 72
+				if iso == 1 {
+					need -= next.txb[q]
+				}
+			}
+		}
+		next.epoch++
+		g.endTx(next, false)
+		woken = need <= 0
+	}
+	if !woken {
+		g.now = deadline
+	}
+	if newSess {
+		g.nsess += 2 // the handler ran its session part twice: one orphan session
+		s := &gsess{broker: g.via, id: g.nsess, epoch: 1, iso: iso, c: c, parts: map[int64]int64{}}
+		for _, q := range qs {
+			s.parts[q] = g.hwm[q]
+		}
+		g.sess = append(g.sess, s)
+	}
 }
 
 func (g *gstate) someOffset(part int64) int64 {
@@ -216,18 +316,28 @@ func (g *gstate) fetch() {
 		}
 		return r2
 	}
+	if r.Chance(16) {
+		g.waitingFetch(c, iso)
+		return
+	}
+	wsuf := ""
+	if r.Chance(8) { // MinBytes on an arbitrary fetch: usually satisfied at once
+		wsuf = fmt.Sprintf(" %d %d", hx.Pick(r, []int64{1, 100, 400}), hx.Pick(r, []int64{0, 10, 50}))
+	}
 	k := r.Intn(100)
 	switch {
 	case k < 45 || (k >= 60 && len(g.sess) == 0): // sessionless
-		hx.Emit("fetch %s %d %d 0 -1 %s -", c, iso, maxb, reqParts(pickParts(), nil))
+		hx.Emit("fetch %s %d %d 0 -1 %s -%s", c, iso, maxb, reqParts(pickParts(), nil), wsuf)
 	case k < 60: // new session
 		g.nsess++
-		s := &gsess{id: g.nsess, epoch: 1, iso: iso, c: c, parts: map[int64]int64{}}
+		s := &gsess{broker: g.via, id: g.nsess, epoch: 1, iso: iso, c: c, parts: map[int64]int64{}}
 		sid := int64(0)
 		if len(g.sess) > 0 && r.Chance(15) { // replace an existing session
 			i := r.Intn(len(g.sess))
 			sid = g.sess[i].id
-			g.sess = append(g.sess[:i], g.sess[i+1:]...)
+			if g.sess[i].broker == g.via {
+				g.sess = append(g.sess[:i], g.sess[i+1:]...)
+			}
 		}
 		str := reqParts(pickParts(), s.parts)
 		hx.Emit("fetch %s %d %d %d 0 %s -", c, iso, maxb, sid, str)
@@ -235,15 +345,19 @@ func (g *gstate) fetch() {
 	default: // incremental
 		i := r.Intn(len(g.sess))
 		s := g.sess[i]
+		if s.broker != g.via && r.Chance(90) {
+			g.via = s.broker
+			hx.Emit("via %d", g.via)
+		}
 		ep := s.epoch
-		bad := false
+		bad := s.broker != g.via
 		switch r.Intn(25) {
 		case 0:
 			ep, bad = s.epoch+1, true
 		case 1:
-			ep, bad = s.epoch-1, s.epoch-1 != 0
+			ep, bad = s.epoch-1, bad || s.epoch-1 != 0
 			if ep == 0 {
-				ep, bad = 5, s.epoch != 5
+				ep, bad = 5, bad || s.epoch != 5
 			}
 		}
 		sid := s.id
@@ -276,8 +390,10 @@ func (g *gstate) fetch() {
 			}
 		}
 		mb := maxb
-		if implicit >= 2 && r.Chance(70) {
+		if implicit >= 2 && r.Chance(35) {
 			mb = 1 << 20
+		} else if r.Chance(40) {
+			mb = hx.Pick(r, []int64{300, 600, 1000, 2000, 4000}) // often enough for everything readable: the Spec then judges completeness
 		}
 		offs := map[int64]int64{}
 		str := reqParts(upd, offs)
@@ -341,7 +457,29 @@ func (g *gstate) step() {
 	r := g.r
 	p := g.prods[r.Intn(len(g.prods))]
 	part := r.Range(0, g.np-1)
+	if g.nb == 2 {
+		if r.Chance(5) {
+			q, b := r.Range(0, g.np-1), r.Range(0, 1)
+			hx.Emit("move %d %d", q, b)
+			g.lead[q] = b
+		}
+		if r.Chance(3) {
+			g.via = r.Range(0, 1)
+			hx.Emit("via %d", g.via)
+		}
+	}
 	k := r.Intn(100)
+	if k < 70 && !g.toLeader(part) { // a partition-level request at the wrong broker: NOT_LEADER_FOR_PARTITION, nothing changes
+		switch r.Intn(3) {
+		case 0:
+			g.emitProd("n", nil, -1, -1, -1, 1, part, 0)
+		case 1:
+			hx.Emit("del %d %d", part, g.someOffset(part))
+		default:
+			hx.Emit("fetch n %d 1048576 0 -1 %d:%d:1048576 -", r.Intn(2), part, g.someOffset(part))
+		}
+		return
+	}
 	switch {
 	case k < 38:
 		g.goodProd(p, part)
@@ -440,7 +578,7 @@ func (g *gstate) step() {
 }
 
 func newState(r *hx.Rng, np int64) *gstate {
-	g := &gstate{r: r, np: np, hwm: make([]int64, np), ls: make([]int64, np)}
+	g := &gstate{r: r, np: np, nb: 1, hwm: make([]int64, np), ls: make([]int64, np), lead: make([]int64, np)}
 	nprod := 1 + r.Intn(4)
 	for i := 0; i < nprod; i++ {
 		g.prods = append(g.prods, &gprod{k: int64(i), txn: r.Chance(70), parts: map[int64]bool{}, wins: map[int64]*gwin{}})
@@ -481,7 +619,7 @@ func (g *gstate) opening(kind int) {
 		iso := int64(r.Intn(2))
 		hx.Emit("fetch n %d 1048576 0 0 %s -", iso, strings.Join(ps, ","))
 		g.nsess++
-		s := &gsess{id: g.nsess, epoch: 1, iso: iso, c: "n", parts: map[int64]int64{}}
+		s := &gsess{broker: g.via, id: g.nsess, epoch: 1, iso: iso, c: "n", parts: map[int64]int64{}}
 		for q := int64(0); q < g.np; q++ {
 			s.parts[q] = 0
 		}
@@ -493,8 +631,13 @@ func gen(a hx.Args) {
 	r := hx.NewRng(a.Seed)
 	for c := 0; c < a.N(220, 6000); c++ {
 		np := int64(1 + r.Intn(3))
-		hx.Emit("reset %d", np)
 		g := newState(r, np)
+		if r.Chance(30) {
+			g.nb = 2
+			hx.Emit("reset %d 2", np)
+		} else {
+			hx.Emit("reset %d", np)
+		}
 		if k := r.Intn(6); k < 2 {
 			g.opening(k)
 		}
@@ -504,6 +647,10 @@ func gen(a hx.Args) {
 		}
 		// closing reads: both isolation levels from the log start, and one tight read
 		for q := int64(0); q < np; q++ {
+			if g.lead[q] != g.via {
+				g.via = g.lead[q]
+				hx.Emit("via %d", g.via)
+			}
 			hx.Emit("fetch n 1 1048576 0 -1 %d:%d:1048576 -", q, g.ls[q])
 			if r.Chance(50) {
 				hx.Emit("fetch o 1 %d 0 -1 %d:%d:%d -", hx.Pick(r, sizes), q, g.someOffset(q), hx.Pick(r, sizes))
